@@ -17,20 +17,20 @@ RULE = (
     "every eliminated set E not containing them: the ballot is written once as a RAIRE-format row, read by both readers, "
     "and the audit-side assorter value (assertion built through make_assertions_from_json) is compared with "
     "(w - l + 1)/2 from the generator's own is_vote_for_winner/loser (again with the card's {candidate: rank} dictionary keyed in reverse and by name; and every pair of "
-    "assertions built together through one make_assertions_from_json call must come back as two assertions scoring all rankings as the generator's do); (b) RAIRE-format files with 1-2 contests, repeated "
+    "assertions built together through one make_assertions_from_json call must come back as two assertions scoring all rankings as the generator's do; and every card carrying TWO ranked contests with the same candidate labels, every pair of rankings, one card object scored by every assertion for the first contest, the second, and the first again); (b) RAIRE-format files with 1-2 contests, repeated "
     "ballot identifiers across contests and all rankings as ballots: both readers must induce the same preference order "
     "on every (ballot, contest); (c) every assertion returned by compute_raire_assertions on the profile lattice, "
     "re-applied to the CVRs through its own predicates, must reproduce its reported tallies.  Non-trivial = (ballot, "
     "assertion) with assorter value != 1/2; distinct = distinct (n, ballot, assertion, value)"
 )
 ASSUMPTIONS = ["duplicate-free rankings only (as the property states)", "candidate identifiers without commas or surrounding blanks"]
-REQUIRE_VAC = ["assorter_values_0", "assorter_values_1", "NEN_assertions_reapplied", "reader_ballots_compared", "files_read", "assertion_pairs_built_together", "pairs_with_same_winner_and_loser"]
-PLAN = {"quick": {"ns": [2, 3, 4], "reapply": [(3, 4), (4, 2)]}, "thorough": {"ns": [2, 3, 4, 5], "reapply": [(3, 6), (4, 3), (5, 2)]}}
+REQUIRE_VAC = ["assorter_values_0", "assorter_values_1", "NEN_assertions_reapplied", "reader_ballots_compared", "files_read", "assertion_pairs_built_together", "pairs_with_same_winner_and_loser", "cards_with_two_ranked_contests", "two_contest_cards_scored_differently_in_the_two_contests"]
+PLAN = {"quick": {"ns": [2, 3, 4], "reapply": [(3, 4), (4, 2)], "twocon": 3}, "thorough": {"ns": [2, 3, 4, 5], "reapply": [(3, 6), (4, 3), (5, 2)], "twocon": 4}}
 TMP = "/dev/shm" if os.path.isdir("/dev/shm") else None
 
 
 def bounds(tier):
-    return {"candidates": PLAN[tier]["ns"], "reapplication_lattice (n, max ballots)": PLAN[tier]["reapply"], "contests_per_file": [1, 2]}
+    return {"candidates": PLAN[tier]["ns"], "reapplication_lattice (n, max ballots)": PLAN[tier]["reapply"], "contests_per_file": [1, 2], "two_contest_cards_up_to_candidates": PLAN[tier]["twocon"]}
 
 
 def raire_file_text(contests, blank_trailing_comma=False):
@@ -58,8 +58,8 @@ def read_both(text):
     return cvrs, n_read, n_unique, contests, rcvrs
 
 
-def audit_contest(n):
-    return Contest.from_dict({"id": "con1", "name": "con1", "risk_limit": 0.05, "cards": 10, "choice_function": Contest.SOCIAL_CHOICE_FUNCTION.IRV,
+def audit_contest(n, cid="con1"):
+    return Contest.from_dict({"id": cid, "name": cid, "risk_limit": 0.05, "cards": 10, "choice_function": Contest.SOCIAL_CHOICE_FUNCTION.IRV,
                               "n_winners": 1, "candidates": [s2r.NAMES[c] for c in range(n)], "winner": [s2r.NAMES[0]],
                               "audit_type": Audit.AUDIT_TYPE.CARD_COMPARISON, "test": None, "use_style": True})
 
@@ -78,18 +78,18 @@ def assertion_menu(n):
     return out
 
 
-def build_pair(n, a):
+def build_pair(n, a, cid="con1"):
     """(audit Assertion, generator assertion) for descriptor a"""
-    con = audit_contest(n)
+    con = audit_contest(n, cid)
     kind, w, l, E = a
     cands = [s2r.NAMES[c] for c in range(n)]
     if kind == "NEB":
         js = [{"winner": s2r.NAMES[w], "loser": s2r.NAMES[l], "assertion_type": "WINNER_ONLY", "already_eliminated": ""}]
-        gen = RU.NEBAssertion("con1", s2r.NAMES[w], s2r.NAMES[l])
+        gen = RU.NEBAssertion(cid, s2r.NAMES[w], s2r.NAMES[l])
     else:
         js = [{"winner": s2r.NAMES[w], "loser": s2r.NAMES[l], "assertion_type": "IRV_ELIMINATION",
                "already_eliminated": [s2r.NAMES[c] for c in E]}]
-        gen = RU.NENAssertion("con1", s2r.NAMES[w], s2r.NAMES[l], [s2r.NAMES[c] for c in E])
+        gen = RU.NENAssertion(cid, s2r.NAMES[w], s2r.NAMES[l], [s2r.NAMES[c] for c in E])
     asn = Assertion.make_assertions_from_json(contest=con, candidates=cands, json_assertions=js)
     assert len(asn) == 1
     return next(iter(asn.values())), gen
@@ -136,6 +136,50 @@ def judge_ballot(n, r, a, acvr=None, rcvr=None):
                             f"generator verdicts give {want}"))
                 break
     return out, val
+
+
+def judge_two_contest_card(n, r1, r2, built=None):
+    """one card carrying two ranked contests whose candidates bear the same labels (RAIRE files number the candidates of
+    every contest alike): ONE card object is scored by every assertion of the menu for the first contest, then the same
+    assertion for the second contest, then the first again; each value must be what the generator's verdicts on that
+    contest's ranking give"""
+    if built is None:
+        built = {a: (build_pair(n, a, "con1"), build_pair(n, a, "con2")) for a in assertion_menu(n)}
+    acvr = CVR(id="b", votes={"con1": {s2r.NAMES[c]: k + 1 for k, c in enumerate(r1)}, "con2": {s2r.NAMES[c]: k + 1 for k, c in enumerate(r2)}})
+    rcvr = {"con1": {s2r.NAMES[c]: k for k, c in enumerate(r1)}, "con2": {s2r.NAMES[c]: k for k, c in enumerate(r2)}}
+    out, vals = [], []
+    for a, ((asn1, gen1), (asn2, gen2)) in built.items():
+        want1 = (gen1.is_vote_for_winner(rcvr) - gen1.is_vote_for_loser(rcvr) + 1) / 2
+        want2 = (gen2.is_vote_for_winner(rcvr) - gen2.is_vote_for_loser(rcvr) + 1) / 2
+        try:
+            got = (asn1.assorter.assort(acvr), asn2.assorter.assort(acvr), asn1.assorter.assort(acvr))
+        except Exception as e:  # noqa
+            return [(f"C14|assorter-exception|{type(e).__name__}", f"audit assorter raised {type(e).__name__}: {e}")], vals
+        vals.append(got[:2])
+        if got != (want1, want2, want1):
+            show = lambda r: ">".join(s2r.NAMES[c] for c in r) or "<blank>"  # noqa
+            out.append((f"C14|two-contests-on-one-card|{a[0]}", f"card with con1 {show(r1)} and con2 {show(r2)}: {a[0]} {s2r.NAMES[a[1]]}>{s2r.NAMES[a[2]]} elim "
+                        f"{[s2r.NAMES[c] for c in a[3]]} scored for con1, con2, con1 again: {got}; the generator's verdicts give {(want1, want2, want1)}"))
+            break
+    return out, vals
+
+
+def run_twocon_shard(sh, rec):
+    _, n, i = sh
+    alpha = list(R.rankings(n))
+    built = {a: (build_pair(n, a, "con1"), build_pair(n, a, "con2")) for a in assertion_menu(n)}
+    for r2 in alpha:
+        v, vals = judge_two_contest_card(n, alpha[i], r2, built)
+        rec.state()
+        rec.trans()
+        rec.evals(5 * len(built))
+        rec.trace()
+        rec.vac("cards_with_two_ranked_contests")
+        if any(x != y for x, y in vals):
+            rec.vac("two_contest_cards_scored_differently_in_the_two_contests")
+        rec.observe((n, alpha[i], r2, tuple(vals)))
+        for key, what in v:
+            rec.violate(key, what, {"kind": "twocon", "n": n, "r1": list(alpha[i]), "r2": list(r2)})
 
 
 def judge_pair(n, a1, a2):
@@ -321,7 +365,7 @@ def run_pair_shard(sh, rec):
 
 
 def run_shard(sh, rec):
-    {"assort": run_assorter_shard, "readers": run_reader_shard, "reapply": run_reapply_shard, "pair": run_pair_shard}[sh[0]](sh, rec)
+    {"assort": run_assorter_shard, "readers": run_reader_shard, "reapply": run_reapply_shard, "pair": run_pair_shard, "twocon": run_twocon_shard}[sh[0]](sh, rec)
 
 
 def explore(tier, seed):
@@ -334,6 +378,9 @@ def explore(tier, seed):
         if n <= 4:
             for i in range(len(assertion_menu(n))):
                 sh.append(("pair", n, i))
+        if n <= plan["twocon"]:
+            for i in range(len(list(R.rankings(n)))):
+                sh.append(("twocon", n, i))
     for (n, B, first) in s2r.shards(plan["reapply"]):
         sh.append(("reapply", n, B, first))
     return core.pmap(run_shard, sh, seed, progress="C14")
@@ -347,6 +394,8 @@ def run_case(case):
     if case["kind"] == "pair":
         a1, a2 = case["a1"], case["a2"]
         return judge_pair(case["n"], (a1[0], a1[1], a1[2], tuple(a1[3])), (a2[0], a2[1], a2[2], tuple(a2[3])))
+    if case["kind"] == "twocon":
+        return judge_two_contest_card(case["n"], tuple(case["r1"]), tuple(case["r2"]))[0]
     if case["kind"] == "readers":
         return judge_readers(case["n"], case["layout"])[0]
     return judge_reapply(case["n"], tuple(case["profile"]), case["winner"], case["func"])[0]
